@@ -1895,6 +1895,17 @@ class Interp(object):
             res = self.hooks.on_binop(self, op, l, r)
             if res is not NotImplemented:
                 return res
+        # an infinity plus / minus a finite number stays that infinity
+        if op in (ast.Add, ast.Sub):
+            inf_ = ('np.inf', '-np.inf')
+            li = isinstance(l, Opaque) and l.desc in inf_
+            ri = isinstance(r, Opaque) and r.desc in inf_
+            if li and is_scalar(r) and not isinstance(r, Opaque):
+                return l
+            if ri and is_scalar(l) and not isinstance(l, Opaque):
+                if op is ast.Add:
+                    return r
+                return Opaque('-np.inf' if r.desc == 'np.inf' else 'np.inf')
         if (isinstance(l, Opaque) and (is_scalar(r) or isinstance(
                 r, Opaque))) or (isinstance(r, Opaque) and is_scalar(l)):
             if not ((isinstance(l, Opaque) and l.desc == 'np.nan') or (
